@@ -127,6 +127,10 @@ def cases(tier, seed):
     # cache x transform: a warm cache may change nothing, also when the transform changes the length of the data
     for tr in (["--transform", "head -c 1000"], ["--transform", "cat"], ["--transform", "fcv-tr double"]):
         out.append({"kind": "cache_transform", "tree": "multi", "args": tr})
+    # a warm cache, then one file rewritten in place (same length) with a modification time that differs only in the
+    # milliseconds / lies a second later / earlier: the partition with --cache equals the one without
+    for shift_ms in (700, 1, 1000, -300):
+        out.append({"kind": "cache_rewrite", "tree": "seam5", "shift_ms": shift_ms})
     # one tree spread over two devices (tmpfs scratch + loop-mounted ext4) whose kinds are pinned independently
     out.append({"kind": "mixed_devices", "tree": "two_devices"})
     hashes = ["metro", "blake3"] if quick else ["metro", "xxhash", "blake3", "sha256", "sha512", "sha3-256", "sha3-512"]
@@ -360,6 +364,27 @@ def _evaluate(case, sc, loop_mp):
                     check("overlap:%s:%s:%s" % (" ".join(case["extra"]), " ".join(order), " ".join(spec)),
                           spec + case["extra"] + order, env0, "overlapping_roots")
                     transitions += 1
+        elif case["kind"] == "cache_rewrite":
+            t0 = 1_650_000_000_100_000_000
+            for e in tree_of(case["tree"]):
+                os.utime(sc.path(e["p"]), ns=(t0, t0))
+            e0, _ = run(sc, ["--cache"] + roots, env0)
+            if e0:
+                raise C.MachineryError("first cached run failed: %s" % e0)
+            victim, donor = sc.path("r/a1"), sc.path("r/d/b1")
+            data = C.read_file(donor)
+            with open(victim, "r+b") as f:
+                f.write(data)
+            t1 = t0 + case["shift_ms"] * 1_000_000
+            os.utime(victim, ns=(t1, t1))
+            e1, fresh = run(sc, roots, env0)
+            if e1:
+                raise C.MachineryError("uncached run failed: %s" % e1)
+            saved, base = base, fresh
+            check("cache_rewrite:%d" % case["shift_ms"], ["--cache"] + roots, env0, "cache_after_rewrite_%+dms" % case["shift_ms"],
+                  partition_only=True)
+            base = saved
+            transitions += 2
         elif case["kind"] == "cache_transform":
             # (the baseline above ran the same transform without the cache)
             for h in ("metro", "blake3"):
